@@ -4,7 +4,7 @@
 cd /verif
 out=/verif/seeded/matrix.tsv; : > $out
 extra() { case "$1" in C03-b) echo C17;; C17-b) echo C01;; C10-b) echo C09;; C15-a) echo C04;; C01-c) echo C17;; C14-c) echo C01 C03;; C08-c) echo C18;; C03-c) echo C17 C01;; esac; }
-for d in seeded/C*-[a-z]; do
+for d in ${MATRIX_SEEDS:-seeded/C*-[c-z] seeded/C*-[ab]}; do
   s=$(basename $d); own=${s%-*}
   for chk in $own $(extra $s); do
     line=$(tools/seed_matrix.sh $s $chk 2>&1 | tail -1)
